@@ -99,6 +99,19 @@ pub fn ensure_unique_type_paths(types: &mut PortableRegistry) -> Result<(), Type
 /// - If the corresponding TypeDefs (shape of type) is different, they are different.
 /// - Else, recurse through any contained type IDs and start from the top.
 pub(crate) fn types_equal(a: u32, b: u32, types: &PortableRegistry) -> bool {
+    #[cfg(feature = "verif-hooks")]
+    {
+        let verdict = types_equal_inner(
+            a,
+            &GenericsList::empty(),
+            &mut HashSet::new(),
+            b,
+            &GenericsList::empty(),
+            &mut HashSet::new(),
+            types,
+        );
+        crate::verif_hooks::emit("te:query", a, b, verdict as u32);
+    }
     let mut a_visited = HashSet::new();
     let mut b_visited = HashSet::new();
     types_equal_inner(
@@ -124,6 +137,8 @@ fn types_equal_inner(
 ) -> bool {
     // IDs are the same; types must be identical!
     if a == b {
+        #[cfg(feature = "verif-hooks")]
+        crate::verif_hooks::emit("te:same-id", a, b, 0);
         return true;
     }
 
@@ -140,6 +155,8 @@ fn types_equal_inner(
     // Both types are recursive, and they look the same based on the above,
     // so assume all is well, since we've already checked other things in prev recursion.
     if seen_a && seen_b {
+        #[cfg(feature = "verif-hooks")]
+        crate::verif_hooks::emit("te:both-seen", a, b, 0);
         return true;
     }
 
@@ -168,6 +185,8 @@ fn types_equal_inner(
     // different type IDs but may be the same type if the bool+u8 line up to generic params).
     if let (Some(a_idx), Some(b_idx)) = (a_generic_idx, b_generic_idx) {
         if a_idx == b_idx {
+            #[cfg(feature = "verif-hooks")]
+            crate::verif_hooks::emit("te:same-generic-index", a, b, a_idx as u32);
             return true;
         }
     }
@@ -198,6 +217,8 @@ fn types_equal_inner(
         // Check that both type names are present or recurse in case of wrapped types
         match (&a.type_name, &b.type_name) {
             (Some(a_type_name), Some(b_type_name)) if !ty_is_skipped_or_wrapped => {
+                #[cfg(feature = "verif-hooks")]
+                crate::verif_hooks::emit("te:type-name-index", a.ty.id, b.ty.id, 0);
                 // check that both type names are present in Generic Params and have the same indexes
                 a_params
                     .index_for_type_name(a_type_name)
